@@ -80,6 +80,14 @@ def gen_cases(tier, seed):
         for _ in range(6):
             N = int(rng.integers(30, 90)); k = int(rng.choice([1, 7, 10, 25]))
             cases.append(_case(rng, N, k, "fixed", False, 2, False))
+        for j in range(4):
+            # the requested output file name is already taken by an EARLIER run (other length, other save interval): the new
+            # run's frames, times and records are its own
+            N = int(rng.integers(3, 13)); k = int(rng.integers(1, N + 2))
+            c_ = _case(rng, N, k, ["fixed", "adaptive"][j % 2], bool(j % 2), int([0, 2][j % 2]), False)
+            c_["options"]["output"] = "file"
+            c_["occupied"] = True
+            cases.append(c_)
         for j in range(6):
             # very small time steps (1e-12 .. 1e-8): a step is a step however small
             N = int(rng.integers(3, 13)); k = int(rng.integers(1, N + 2))
@@ -102,7 +110,21 @@ def gen_cases(tier, seed):
 
 def run_case(spec):
     tm = simmon.TraceMonitor()
-    rr = sim.run_sim(spec, [tm, simmon.Sanitizer()])
+    workdir = None
+    if spec.get("occupied"):
+        import copy
+        import tempfile
+
+        workdir = tempfile.mkdtemp(prefix="vt_c05_")
+        other = copy.deepcopy(spec)
+        other["options"]["save_every"] = int(other["options"]["save_every"]) + 1
+        other["options"]["solve_time"] = 0.5 * other["options"]["solve_time"]
+        if "auto_dt" in other["options"]:
+            other["options"]["auto_dt"] = dict(other["options"]["auto_dt"], steps=max(1, other["options"]["auto_dt"]["steps"] // 2))
+        r0 = sim.run_sim(other, [], workdir=workdir, keep_dir=True)
+        if r0.refused:
+            return {"violations": [], "counters": {"refused_mesh": 1}, "classes": ["refused"], "nontrivial": False}
+    rr = sim.run_sim(spec, [tm, simmon.Sanitizer()], workdir=workdir)
     if rr.refused:
         return {"violations": [], "counters": {"refused_mesh": 1}, "classes": ["refused"], "nontrivial": False}
     V, C = [], {}
